@@ -237,10 +237,12 @@ expected text when one is written -/
 def MeetsSystem (exp : Option Str) : CmdAnswer → Prop
   | .exit code out => code = 0 ∧ (exp = none ∨ exp = some (trim out))
   | .spawnErr => False
+  | .signal _ _ => False      -- killed by a signal: not a zero exit status
 
 /-- what `apply_record` turns a command's answer into (non-background, not skipped) -/
 def cmdOutput (exp : Option Str) : CmdAnswer → Output
   | .spawnErr => .system none (some (kw "spawnerr"))
+  | .signal sig out => .system none (some (signalErrorText sig out))
   | .exit code out =>
     if code = 0 then .system (if exp.isSome then some out else none) none
     else .system none (some (systemErrorText code out))
@@ -249,6 +251,7 @@ theorem system_pass_iff (exp : Option Str) (a : CmdAnswer) :
     judgeSystem exp (cmdOutput exp a) = .pass ↔ MeetsSystem exp a := by
   cases a with
   | spawnErr => simp [cmdOutput, judgeSystem, MeetsSystem]
+  | signal sig out => simp [cmdOutput, judgeSystem, MeetsSystem]
   | exit code out =>
     by_cases hc : code = 0
     · cases exp with
@@ -259,13 +262,18 @@ theorem system_pass_iff (exp : Option Str) (a : CmdAnswer) :
 
 theorem system_kind (exp : Option Str) (a : CmdAnswer) (k : FailKind) (d : Str)
     (h : judgeSystem exp (cmdOutput exp a) = .fail k d) :
-    (k = .systemFail ∧ (a = .spawnErr ∨ ∃ code out, a = .exit code out ∧ code ≠ 0)) ∨
+    (k = .systemFail ∧ (a = .spawnErr ∨ (∃ sig out, a = .signal sig out) ∨
+      ∃ code out, a = .exit code out ∧ code ≠ 0)) ∨
     (k = .stdoutMismatch ∧ ∃ e out, exp = some e ∧ a = .exit 0 out ∧ e ≠ trim out) := by
   cases a with
   | spawnErr =>
     simp only [cmdOutput, judgeSystem] at h
     injection h with hk _; subst hk
     exact Or.inl ⟨rfl, Or.inl rfl⟩
+  | signal sig out =>
+    simp only [cmdOutput, judgeSystem] at h
+    injection h with hk _; subst hk
+    exact Or.inl ⟨rfl, Or.inr (Or.inl ⟨sig, out, rfl⟩)⟩
   | exit code out =>
     by_cases hc : code = 0
     · subst hc
@@ -279,7 +287,7 @@ theorem system_kind (exp : Option Str) (a : CmdAnswer) (k : FailKind) (d : Str)
         · cases h
     · simp only [cmdOutput, hc, if_false, judgeSystem] at h
       injection h with hk _; subst hk
-      exact Or.inl ⟨rfl, Or.inr ⟨code, out, rfl, hc⟩⟩
+      exact Or.inl ⟨rfl, Or.inr (Or.inr ⟨code, out, rfl, hc⟩)⟩
 
 /-! ### totality: the `unreachable!()` arm is unreachable -/
 
@@ -330,6 +338,7 @@ theorem applySystem_output (E : Env σ) (cfg : RCfg) (w : World σ) (conds : Lis
       · split
         · exact Or.inr ⟨_, _, rfl⟩
         · split <;> exact Or.inr ⟨_, _, rfl⟩
+        · exact Or.inr ⟨_, _, rfl⟩
 
 /-- **judge_total**: on every output `apply_record` can produce for a record, the verdict table
 reaches one of its real arms; the runner cannot hit `unreachable!()`. -/
